@@ -961,3 +961,168 @@ Proof.
 Qed.
 
 End ContextProofs.
+
+(* ------------------------------------------------------------------ a served time-out flushes everything accepted before it *)
+Section MarkProofs.
+Context {T R : Type}.
+Variable fetch : list T -> list R.
+Variable p : rparams.
+Hypothesis Hfixed : rp_fixed p = true.
+Notation rstate := (rstate T R).
+
+Lemma flush_step_frame : forall c (s : rstate) c' (s' : rstate),
+  flush_step p c s = Some (c', s') -> inflight s' = inflight s /\ added s' = added s.
+Proof.
+  intros c s c' s' H. destruct c; cbn [flush_step] in H; try discriminate.
+  - destruct (rp_fixed p && flock s); [discriminate|].
+    destruct (is_nil (fst (b_flush current_batch (bt s)))); inversion H; subst; split; reflexivity.
+  - destruct (Nat.ltb (reserved s) (max_items p)); inversion H; subst; split; reflexivity.
+  - inversion H; subst; split; reflexivity.
+  - inversion H; subst; split; reflexivity.
+  - inversion H; subst; split; reflexivity.
+Qed.
+
+(* actions of the other goroutines leave the time-out goroutine and the pending expiries alone, and only ever add inputs *)
+Lemma step_frame : forall a (s : rstate), a <> ATimeout -> a <> ATimerFire ->
+  tpc (step fetch p a s) = tpc s /\ inflight (step fetch p a s) = inflight s /\
+  length (added s) <= length (added (step fetch p a s)).
+Proof.
+  intros a s H1 H2. unfold step. destruct (step_opt fetch p a s) as [s'|] eqn:E; [|repeat split; lia].
+  destruct a; try (now contradiction H1); try (now contradiction H2); cbn [step_opt] in E.
+  - unfold adder_step in E. destruct (apc s).
+    + destruct (script s) as [|[x|] sc]; inversion E; subst; cbn [tpc inflight added]; repeat split; try lia.
+      rewrite app_length. cbn. lia.
+    + inversion E; subst. cbn. repeat split; lia.
+    + destruct (flush_step p PFlush s) as [[c' s1]|] eqn:F; inversion E; subst.
+      destruct (flush_step_pcs p _ _ _ _ F) as [_ Et]. destruct (flush_step_frame _ _ _ _ F) as [Ei Ea]. cbn. rewrite Et, Ei, Ea. repeat split; lia.
+    + destruct (flush_step p (PReserve ev) s) as [[c' s1]|] eqn:F; inversion E; subst.
+      destruct (flush_step_pcs p _ _ _ _ F) as [_ Et]. destruct (flush_step_frame _ _ _ _ F) as [Ei Ea]. cbn. rewrite Et, Ei, Ea. repeat split; lia.
+    + destruct (flush_step p (PRead ev) s) as [[c' s1]|] eqn:F; inversion E; subst.
+      destruct (flush_step_pcs p _ _ _ _ F) as [_ Et]. destruct (flush_step_frame _ _ _ _ F) as [Ei Ea]. cbn. rewrite Et, Ei, Ea. repeat split; lia.
+    + destruct (flush_step p (PInc ev seq) s) as [[c' s1]|] eqn:F; inversion E; subst.
+      destruct (flush_step_pcs p _ _ _ _ F) as [_ Et]. destruct (flush_step_frame _ _ _ _ F) as [Ei Ea]. cbn. rewrite Et, Ei, Ea. repeat split; lia.
+    + destruct (flush_step p (PWrite ev seq r) s) as [[c' s1]|] eqn:F; inversion E; subst.
+      destruct (flush_step_pcs p _ _ _ _ F) as [_ Et]. destruct (flush_step_frame _ _ _ _ F) as [Ei Ea]. cbn. rewrite Et, Ei, Ea. repeat split; lia.
+  - unfold complete_step in E. destruct (nth_error (fetchers s) i) as [[seq ev [|]]|]; inversion E; subst; cbn; repeat split; lia.
+  - unfold drain_step in E. destruct (nth_error (fetchers s) i) as [[seq ev [|]]|]; try discriminate.
+    destruct (drain_loop (S (length (items s))) (drained s) (items s) (reserved s) (out s)) as [[[d its] res] o].
+    inversion E; subst; cbn; repeat split; lia.
+Qed.
+
+Lemma step_flushed_len : forall a (s : rstate),
+  length (concat (flushed s)) <= length (concat (flushed (step fetch p a s))).
+Proof.
+  intros a s. destruct (step_flushed fetch p a s) as [E|[ev E]]; rewrite E; [lia|].
+  rewrite concat_app, app_length. lia.
+Qed.
+
+(* every expiry has been served, or is still pending with the time-out goroutine *)
+Definition MInv (s : rstate) (mark : nat) : Prop :=
+  mark <= length (added s) /\
+  (mark <= length (concat (flushed s)) \/ 0 < inflight s \/ tpc s = PFlush).
+
+Lemma m_step_inv : forall a (ms : rmstate T R), Inv fetch (rm ms) -> MInv (rm ms) (m_mark ms) ->
+  MInv (rm (m_step fetch p a ms)) (m_mark (m_step fetch p a ms)).
+Proof.
+  intros a [s mark] HI [Hle HJ]. cbn [rm m_mark] in *. unfold m_step. cbn [rm m_mark]. unfold MInv.
+  assert (HI' : Inv fetch (step fetch p a s)) by now apply step_inv.
+  pose proof (step_flushed_len a s) as Hfl.
+  destruct a.
+  - (* adder *)
+    destruct (step_frame AAdder s) as (Et & Ei & Ea); try discriminate.
+    split; [lia|]. rewrite Et, Ei. destruct HJ as [H|[H|H]]; [left; lia|right; now left|right; now right].
+  - (* time-out goroutine *)
+    unfold step in *. cbn [step_opt] in *. unfold timeout_step in *.
+    destruct (tpc s) eqn:Et.
+    + destruct (inflight s) eqn:Ei.
+      * split; [assumption|]. rewrite Et, Ei. destruct HJ as [H|[H|H]]; [now left|lia|discriminate].
+      * cbn [set_tpc set_inflight added flushed tpc]. split; [assumption|]. right; now right.
+    + split; [assumption|]. rewrite Et. destruct HJ as [H|[H|H]]; [now left|right; now left|discriminate].
+    + (* PFlush: waits while the lock is held; otherwise takes the whole batch *)
+      cbn [flush_step] in *. rewrite Hfixed in *. cbn [andb] in *. destruct (flock s).
+      * split; [assumption|]. right; right; assumption.
+      * assert (Hb : forall s1 c', (if is_nil (fst (b_flush current_batch (bt s))) then Some (PIdle, s)
+                     else Some (PReserve (fst (b_flush current_batch (bt s))),
+                                mkR (snd (b_flush current_batch (bt s))) (script s) (apc s) (tpc s) (inflight s) true (reserved s)
+                                    (nextseq s) (drained s) (items s) (fetchers s) (out s) (added s)
+                                    (flushed s ++ [fst (b_flush current_batch (bt s))]))) = Some (c', s1) ->
+                     batch (bt s1) = [] /\ added s1 = added s).
+        { intros s1 c'. unfold b_flush. cbn [negb Z.eqb current_batch andb orb].
+          replace ((-1 =? -1)%Z) with true by reflexivity. cbn [negb andb]. rewrite orb_false_r.
+          destruct (is_nil (batch (bt s))) eqn:En; cbn [fst snd is_nil].
+          - intros H; inversion H; subst. split; [now apply is_nil_true|reflexivity].
+          - rewrite En. intros H; inversion H; subst. cbn. split; reflexivity. }
+        destruct (if is_nil (fst (b_flush current_batch (bt s))) then _ else _) as [[c' s1]|] eqn:F.
+        -- destruct (Hb s1 c' eq_refl) as [Hnil Hadd]. cbn [set_tpc added flushed tpc inflight] in *.
+           destruct HI' as [_ _ _ _ _ _ _ _ Hcat _ _ _]. cbn [set_tpc added flushed bt] in Hcat.
+           rewrite Hnil, app_nil_r in Hcat. unfold MInv. cbn [set_tpc added flushed tpc inflight].
+           split; [rewrite Hadd; assumption|]. left. rewrite Hcat, Hadd. assumption.
+        -- destruct (is_nil (fst (b_flush current_batch (bt s)))); discriminate.
+    + destruct (flush_step p (PReserve ev) s) as [[c' s1]|] eqn:F.
+      * destruct (flush_step_frame _ _ _ _ F) as [Ei Ea]. cbn [set_tpc added flushed tpc inflight] in *. rewrite Ea, Ei.
+        split; [assumption|]. destruct HJ as [H|[H|H]]; [left; lia|right; now left|discriminate].
+      * split; [assumption|]. rewrite Et. destruct HJ as [H|[H|H]]; [now left|right; now left|discriminate].
+    + destruct (flush_step p (PRead ev) s) as [[c' s1]|] eqn:F.
+      * destruct (flush_step_frame _ _ _ _ F) as [Ei Ea]. cbn [set_tpc added flushed tpc inflight] in *. rewrite Ea, Ei.
+        split; [assumption|]. destruct HJ as [H|[H|H]]; [left; lia|right; now left|discriminate].
+      * split; [assumption|]. rewrite Et. destruct HJ as [H|[H|H]]; [now left|right; now left|discriminate].
+    + destruct (flush_step p (PInc ev seq) s) as [[c' s1]|] eqn:F.
+      * destruct (flush_step_frame _ _ _ _ F) as [Ei Ea]. cbn [set_tpc added flushed tpc inflight] in *. rewrite Ea, Ei.
+        split; [assumption|]. destruct HJ as [H|[H|H]]; [left; lia|right; now left|discriminate].
+      * split; [assumption|]. rewrite Et. destruct HJ as [H|[H|H]]; [now left|right; now left|discriminate].
+    + destruct (flush_step p (PWrite ev seq r) s) as [[c' s1]|] eqn:F.
+      * destruct (flush_step_frame _ _ _ _ F) as [Ei Ea]. cbn [set_tpc added flushed tpc inflight] in *. rewrite Ea, Ei.
+        split; [assumption|]. destruct HJ as [H|[H|H]]; [left; lia|right; now left|discriminate].
+      * split; [assumption|]. rewrite Et. destruct HJ as [H|[H|H]]; [now left|right; now left|discriminate].
+  - (* the timer expires *)
+    unfold step. cbn [step_opt]. unfold timer_fire. destruct (armed (bt s)).
+    + cbn [set_inflight added flushed inflight tpc]. split; [lia|]. right; left; lia.
+    + split; [assumption|assumption].
+  - destruct (step_frame (AComplete i) s) as (Et & Ei & Ea); try discriminate.
+    split; [lia|]. rewrite Et, Ei. destruct HJ as [H|[H|H]]; [left; lia|right; now left|right; now right].
+  - destruct (step_frame (ADrain i) s) as (Et & Ei & Ea); try discriminate.
+    split; [lia|]. rewrite Et, Ei. destruct HJ as [H|[H|H]]; [left; lia|right; now left|right; now right].
+Qed.
+
+Lemma m_run_rm : forall acts ms, rm (m_run fetch p acts ms) = run fetch p acts (rm ms).
+Proof.
+  intros acts. induction acts as [|a acts IH]; intros ms; cbn [m_run run fold_left]; [reflexivity|].
+  unfold m_run, run in IH. rewrite IH. reflexivity.
+Qed.
+
+(* No time-out is ever dropped: when the fetcher is at rest and no expiry is pending, every input accepted before the last
+   expiry of the timer has been handed out in a batch (and, by reorder_in_order, its result has been emitted). *)
+Lemma m_run_inv : forall acts (ms : rmstate T R), Inv fetch (rm ms) -> MInv (rm ms) (m_mark ms) ->
+  Inv fetch (rm (m_run fetch p acts ms)) /\ MInv (rm (m_run fetch p acts ms)) (m_mark (m_run fetch p acts ms)).
+Proof.
+  intros acts. induction acts as [|a acts IH]; intros ms HI HM; cbn [m_run fold_left]; [now split|].
+  apply IH.
+  - unfold m_step. cbn [rm]. now apply step_inv.
+  - now apply m_step_inv.
+Qed.
+
+Lemma firstn_app_le2 : forall {A} (l l' : list A) n, n <= length l -> firstn n (l ++ l') = firstn n l.
+Proof. intros A l l' n H. rewrite firstn_app. replace (n - length l) with 0 by lia. cbn. apply app_nil_r. Qed.
+
+(* No time-out is ever dropped: when the fetcher is at rest and no expiry is pending, every input accepted before the last
+   expiry of the timer has been handed out in a batch (and, by reorder_in_order, its result has been emitted). *)
+Theorem expired_batch_flushed_proof : forall (sc : list (aop T)) (acts : list action),
+  let ms := m_run fetch p acts (m_init sc) in
+  let s := rm ms in
+  s = run fetch p acts (r_init sc) /\
+  (quiescent s = true -> inflight s = 0 ->
+     m_mark ms <= length (concat (flushed s)) /\
+     firstn (m_mark ms) (added s) = firstn (m_mark ms) (concat (flushed s))).
+Proof.
+  intros sc acts ms s. split; [apply m_run_rm|].
+  destruct (m_run_inv acts (m_init sc)) as [HI [Hle HJ]].
+  - cbn. apply Inv_init.
+  - split; cbn; [lia|left; lia].
+  - fold ms in HI, Hle, HJ. fold s in HI, Hle, HJ. intros Hq Hi.
+    assert (Hm : m_mark ms <= length (concat (flushed s))).
+    { destruct HJ as [H|[H|H]]; [assumption|lia|].
+      unfold quiescent in Hq. rewrite H in Hq. cbn in Hq. rewrite andb_false_r in Hq. discriminate. }
+    split; [assumption|]. destruct HI as [_ _ _ _ _ _ _ _ Hcat _ _ _]. rewrite <- Hcat. now apply firstn_app_le2.
+Qed.
+
+End MarkProofs.
